@@ -760,6 +760,12 @@ class Integer(AbstractInteger, Constant):
     TypeError: expecting Integer, PublicInteger, or SecretInteger
     """
 
+    def __init__(self: Integer, input: Input = None, value: int = None):
+        # ``Integer(5)`` denotes a literal, as in the Nada DSL itself.
+        if isinstance(input, int):
+            (input, value) = (None, input)
+        super().__init__(input, value)
+
 
 class PublicInteger(AbstractInteger, Public):
     """
